@@ -150,7 +150,15 @@ class Gen:
         ud = [[self.r.choice([-2, -1, 1, 2, 2, 0]) for _ in uu] for uu in us]
         F = [{"t": [self.r.randint(-2, 2) for _ in range(3)], "f": [self.r.randint(-2, 2) for _ in range(3)]} if self.r.random() < 0.7
              else {"t": [0, 0, 0], "f": [0, 0, 0]} for _ in desc]
-        return {"desc": desc, "q": qs, "u": us, "dyn": int(dyn), "ud": ud, "F": F, "q2": q2s, "u2": u2s}
+        # task frames: bodies drawn with repeats (and sometimes Ground), integer stations and task forces
+        nb = len(desc)
+        tb = [self.r.randint(0 if self.r.random() < 0.15 else 1, nb) for _ in range(self.r.randint(2, 4))]
+        tb.append(self.r.choice(tb))        # at least one body twice
+        self.r.shuffle(tb)
+        vec = lambda: [self.r.randint(-2, 2) for _ in range(3)]
+        tasks = [{"b": b, "st": vec(), "f": vec(), "T": vec()} for b in tb]
+        return {"desc": desc, "q": qs, "u": us, "dyn": int(dyn), "ud": ud, "F": F, "q2": q2s, "u2": u2s, "tasks": tasks,
+                "locked": [int(self.r.random() < 0.3) for _ in desc]}
 
 
 def generate(tier, seed):
@@ -251,7 +259,7 @@ def compare(cfg, want, got):
     """-> list of (property, what, detail)"""
     res = []
     if got.get("exc"):
-        return [(p, "exception", got["exc"]) for p in ("C05", "C03", "C04", "C01", "C15", "C02", "C14")]
+        return [(p, "exception", got["exc"]) for p in ("C05", "C03", "C04", "C01", "C15", "C02", "C14", "C10")]
     w = conv(want)
 
     def chk(prop, what, a, b):
@@ -279,6 +287,7 @@ def compare(cfg, want, got):
     vel_ok = chk("C03", "velocity", w["V"], got["V"])
     if poses_ok and not vel_ok:
         res.append(("C05", "speed-meaning", res[-1][2]))
+    vsc = max([1.0] + [abs(v) for v in flat(w["V"])])
     nu = len(w["M"])
     msc = max([1.0] + [abs(v) for v in flat(w["M"])])
     chk("C01", "mass-matrix", w["M"], got["M"])
@@ -290,10 +299,17 @@ def compare(cfg, want, got):
         res.append(("C01", "not-positive-definite", json.dumps(got["M"])[:300]))
     if nu and max(abs(got["M"][i][j] - got["M"][j][i]) for i in range(nu) for j in range(nu)) > 1e-10 * msc:
         res.append(("C01", "not-symmetric", json.dumps(got["M"])[:300]))
-    vsc = max([1.0] + [abs(v) for v in flat(w["V"])])
     small("C04", "system-jacobian", got["errJ"], vsc)
     small("C04", "jacobian-transpose-adjoint", got["errJT"], vsc * 100)
     small("C04", "station-jacobian", got["errStation"], vsc * 10)
+    chk("C04", "frame-jacobian-times-u", [[t["w"], t["v"]] for t in w["taskV"]], [[t["w"], t["v"]] for t in got["taskV"]])
+    chk("C04", "station-jacobian-times-u", [t["v"] for t in w["taskV"]], [t["vs"] for t in got["taskV"]])
+    chk("C04", "station-jacobian-transpose", w["JStF"], got["JStF"])
+    chk("C04", "frame-jacobian-transpose", w["JFtF"], got["JFtF"])
+    small("C04", "explicit-task-jacobians-agree-with-operators", got["errTaskExplicit"], vsc * 100)
+    if cfg["dyn"]:
+        chk("C04", "frame-jacobian-bias", [[t["aw"], t["a"]] for t in w["taskA0"]], [[t["aw"], t["a"]] for t in got["taskA0"]])
+        chk("C04", "station-jacobian-bias", [t["a"] for t in w["taskA0"]], [t["as"] for t in got["taskA0"]])
     chk("C15", "kinetic-energy-sum", w["ke2"], got["ke2"])
     chk("C15", "linear-momentum", w["P"], got["P"])
     chk("C15", "momentum-is-mass-times-vcom", w["P"], got["vcom"])
@@ -316,6 +332,13 @@ def compare(cfg, want, got):
         if not d <= 1e-8 * fsc:
             res.append(("C02", "forward-dynamics-with-applied-forces", "expected udot %s, observed %s" % (udflat, got["udotF"])))
         small("C02", "inverse-of-forward-residual", got["errResidual"], fsc)
+        # locked mobilizers: the lock supplies exactly the force the spec computed (documented sign: M udot + tau = f)
+        exp_mf, j = [], 0
+        for b, d in enumerate(cfg["desc"]):
+            for k in range(NU[d["type"]]):
+                exp_mf.append(-w["tau"][j] if cfg["locked"][b] else 0.0)
+                j += 1
+        chk("C10", "motion-forces-of-locked-mobilizers", exp_mf, got["motionF"])
         chk("C02", "inverse-dynamics-M-udot-plus-bias", [a + b for a, b in zip(w["tau"], w["JtF"])], got["MudBias"])
         chk("C02", "body-forces-enter-as-JtF", w["JtF"], got["JtF"])
         chk("C04", "body-accelerations", [[b["aw"], b["a"]] for b in w["A"]], [[b["aw"], b["a"]] for b in got["A"]])
@@ -327,18 +350,8 @@ def compare(cfg, want, got):
     return res
 
 
-def main():
-    pid = sys.argv[1]
-    tier, replay = "quick", None
-    args = sys.argv[2:]
-    while args:
-        a = args.pop(0)
-        if a == "--tier":
-            tier = args.pop(0)
-        elif a == "--replay":
-            replay = args.pop(0)
-    tier = os.environ.get("VERIF_TIER", tier)
-    rep = vlib.Report(pid, tier)
+def run(pid, tier, rep, replay=None):
+    """the whole E7 pipeline for the comparisons that decide property pid; violations go to rep; returns coverage"""
     work = vlib.workdir("lattice-" + pid)
     vlib.build_repo()
     binpath = vlib.compile_harness(os.path.join(VERIF, "harness", "replay_lattice.cpp"),
@@ -388,11 +401,30 @@ def main():
     cov["uncovered"] = ["configurations off the lattice (general angles), mobilizer types Screw, SphericalCoords, Ellipsoid, LineOrientation, FreeLine, CantileverFreeBeam, Custom/FunctionBased",
                         "Euler-angle modelling option for Ball / Free", "trees of more than 5 bodies"]
     cov["exhaustive"] = False
+    return cov
+
+
+def main():
+    pid = sys.argv[1]
+    tier, replay = "quick", None
+    args = sys.argv[2:]
+    while args:
+        a = args.pop(0)
+        if a == "--tier":
+            tier = args.pop(0)
+        elif a == "--replay":
+            replay = args.pop(0)
+    tier = os.environ.get("VERIF_TIER", tier)
+    rep = vlib.Report(pid, tier)
+    cov = run(pid, tier, rep, replay)
     if len(rep.violations) > 30:
         rep.violations = rep.violations[:30]
-    return rep.finish("model_checking", cov, assumptions=[
-        "mass properties, frames, coordinates and speeds are restricted to the rational lattice n/5^e (angles k*90deg + m*atan2(4,3), rational unit quaternions)",
-        "floating-point results are compared with the exact values within 1e-9 relative to the magnitude of the quantity"])
+    return rep.finish("model_checking", cov, assumptions=ASSUMPTIONS)
+
+
+ASSUMPTIONS = [
+    "mass properties, frames, coordinates and speeds are restricted to the rational lattice n/5^e (angles k*90deg + m*atan2(4,3), rational unit quaternions)",
+    "floating-point results are compared with the exact values within 1e-9 relative to the magnitude of the quantity"]
 
 
 if __name__ == "__main__":
